@@ -197,7 +197,9 @@ def synthetic_case(draw):
     counts = [draw(st.one_of(st.integers(-3, 6), st.sampled_from([0.5, 0.217, 1.5]))) for _ in idx]
     extra = ['Outside'] if draw(st.integers(0, 5)) == 0 else []
     basis_order = list(draw(st.permutations(range(n))))
-    return dict(kind='synthetic', specs=specs, A=A, rmse=rm, idx=idx, counts=counts, extra=extra,
+    # the stored matrix need not be symmetric: an antisymmetric part leaves x'Mx as it is but makes the two triangles differ
+    skew = [[draw(st.sampled_from([0, 0, 1, -2, 0.25])) for _ in range(n)] for _ in range(n)] if draw(st.booleans()) else None
+    return dict(kind='synthetic', specs=specs, A=A, rmse=rm, idx=idx, counts=counts, extra=extra, skew=skew,
                 basis_order=basis_order, tf=[draw(st.floats(0, 1)) for _ in range(2)])
 
 
@@ -208,6 +210,10 @@ def check_synthetic(ctx, case):
     basis = [names[i] for i in case['basis_order']]      # the basis order differs from the library's own order
     A = np.array(case['A'], dtype=float)
     M = A.T @ A
+    if case.get('skew'):
+        B = np.array(case['skew'], dtype=float)
+        M = M + (B - B.T)
+        ctx.event('synthetic:stored-matrix-not-symmetric')
     rmse = TG.build_group(case['rmse'])
     uq = dict(RMSE=types.SimpleNamespace(thermochem=rmse), descriptors=list(basis), mat=M.copy(), dof=10)
     specs2 = specs + ([TG_dummy()] if case['extra'] else [])
